@@ -6,38 +6,38 @@ Local Open Scope N_scope.
 Notation length := List.length.
 
 (* ---- delete / rename paths only shrink *)
-Time Lemma nodes_upd_tab s t n : is_Some (s_eng (upd_tab s t) !! n) <-> is_Some (s_eng s !! n).
+Lemma nodes_upd_tab s t n : is_Some (s_eng (upd_tab s t) !! n) <-> is_Some (s_eng s !! n).
 Proof. reflexivity. Qed.
 
-Time Lemma delete_gateway_ext fixed host s keys s' er :
+Lemma delete_gateway_ext fixed host s keys s' er :
   is_Some (s_eng s !! host) -> delete_gateway fixed host s keys = (s', er) -> ext s s'.
 Proof.
   intros Hn. unfold delete_gateway.
   destruct (ts_delete fixed _ keys) as [e' er'] eqn:Ed. intros [= <- <-].
   eapply ext_trans; [apply ext_upd_tab_sub, tab_delete_sub|].
   apply ext_upd_eng_sub; [exact Hn|]. eapply ts_delete_sub; eassumption.
-Time Qed.
+Qed.
 
-Time Lemma is_node_true s n : is_node s n = true <-> is_Some (s_eng s !! n).
+Lemma is_node_true s n : is_node s n = true <-> is_Some (s_eng s !! n).
 Proof. unfold is_node. apply bool_decide_eq_true. Qed.
 
-Time Lemma delete_remote_ext fixed p s keys s' er : delete_remote fixed p s keys = (s', er) -> ext s s'.
+Lemma delete_remote_ext fixed p s keys s' er : delete_remote fixed p s keys = (s', er) -> ext s s'.
 Proof.
-  unfold delete_remote. destruct (is_node s p) eqn:En; simpl; [|intros [= <- <-]; apply ext_refl].
+  unfold delete_remote. destruct (is_node s p) eqn:En; cbn [negb]; [|intros [= <- <-]; apply ext_refl].
   destruct (any_internal (s_tab s) keys); [intros [= <- <-]; apply ext_refl|].
   destruct (delete_gateway fixed p s keys) as [s1 er1] eqn:Ed. intros [= <- <-].
   apply ext_rollback. eapply delete_gateway_ext; [apply is_node_true; eassumption|eassumption].
-Time Qed.
+Qed.
 
-Time Lemma delete_peers_ext fixed : forall peers s keys s' er, delete_peers fixed s peers keys = (s', er) -> ext s s'.
+Lemma delete_peers_ext fixed : forall peers s keys s' er, delete_peers fixed s peers keys = (s', er) -> ext s s'.
 Proof.
-  induction peers as [|p peers IH]; intros s keys s' er; simpl; [intros [= <- <-]; apply ext_refl|].
+  induction peers as [|p peers IH]; intros s keys s' er; cbn [delete_peers]; [intros [= <- <-]; apply ext_refl|].
   destruct (delete_remote fixed p s _) as [s1 er1] eqn:E1. apply delete_remote_ext in E1.
   destruct (is_ok er1); [|intros [= <- <-]; assumption].
   intros H. eapply ext_trans; [eassumption|]. eapply IH; eassumption.
-Time Qed.
+Qed.
 
-Time Lemma delete_keys_ext fixed host s keys s' r :
+Lemma delete_keys_ext fixed host s keys s' r :
   is_Some (s_eng s !! host) -> delete_keys fixed host s keys = (s', r) -> ext s s'.
 Proof.
   intros Hn. unfold delete_keys. destruct (any_internal _ _); [intros [= <- <-]; apply ext_refl|].
@@ -48,15 +48,15 @@ Proof.
   eapply ext_trans; [exact E1'|].
   eapply ext_trans; [apply ext_upd_tab_sub, tab_delete_sub|].
   eapply delete_gateway_ext; [|exact E3]. apply nodes_upd_tab, (ext_nodes _ _ E1'), Hn.
-Time Qed.
+Qed.
 
-Time Lemma delete_by_name_ext fixed host s names s' r :
+Lemma delete_by_name_ext fixed host s names s' r :
   is_Some (s_eng s !! host) -> delete_by_name fixed host s names = (s', r) -> ext s s'.
 Proof.
   intros Hn. unfold delete_by_name. destruct (lookup_names _ _). apply delete_keys_ext, Hn.
-Time Qed.
+Qed.
 
-Time Lemma rename_gateway_ext host s keys names s' er :
+Lemma rename_gateway_ext host s keys names s' er :
   is_Some (s_eng s !! host) -> rename_gateway host s keys names = (s', er) -> ext s s'.
 Proof.
   intros Hn. unfold rename_gateway. destruct (tab_rename _ keys names) as [t' er1] eqn:Et.
@@ -64,18 +64,18 @@ Proof.
   destruct (ts_rename _ _) as [e' er2] eqn:Er. intros [= <- <-].
   eapply ext_trans; [apply ext_upd_tab_sub; eapply tab_rename_sub; eassumption|].
   apply ext_upd_eng_sub; [exact Hn|]. eapply ts_rename_sub; eassumption.
-Time Qed.
+Qed.
 
-Time Lemma rename_free_ext s free s' er : rename_free s free = (s', er) -> ext s s'.
+Lemma rename_free_ext s free s' er : rename_free s free = (s', er) -> ext s s'.
 Proof.
   unfold rename_free. destruct free; [intros [= <- <-]; apply ext_refl|].
   destruct (tab_rename _ _ _) as [t' er1] eqn:Et. intros [= <- <-].
   destruct (is_ok er1); [|apply ext_refl]. apply ext_upd_tab_sub. eapply tab_rename_sub; eassumption.
-Time Qed.
+Qed.
 
-Time Lemma rename_remote_ext validate p s kn s' er : rename_remote validate p s kn = (s', er) -> ext s s'.
+Lemma rename_remote_ext validate p s kn s' er : rename_remote validate p s kn = (s', er) -> ext s s'.
 Proof.
-  unfold rename_remote. destruct (is_node s p) eqn:En; simpl; [|intros [= <- <-]; apply ext_refl].
+  unfold rename_remote. destruct (is_node s p) eqn:En; cbn [negb]; [|intros [= <- <-]; apply ext_refl].
   apply is_node_true in En.
   destruct (rename_checks validate s _ _) as [er0 amb]. 
   destruct (negb (is_ok er0)); [intros [= <- <-]; apply ext_upd_amb|].
@@ -92,18 +92,18 @@ Proof.
     + destruct (rename_gateway p s1 _ _) as [s2 er2] eqn:E2. intros [= <- <-].
       eapply ext_trans; [exact E0|]. apply ext_rollback. eapply ext_trans; [exact X1|].
       eapply rename_gateway_ext; [|eassumption]. apply (ext_nodes _ _ X1). exact En.
-Time Qed.
+Qed.
 
-Time Lemma rename_peers_ext validate : forall peers s kn s' er,
+Lemma rename_peers_ext validate : forall peers s kn s' er,
   rename_peers validate s peers kn = (s', er) -> ext s s'.
 Proof.
-  induction peers as [|p peers IH]; intros s kn s' er; simpl; [intros [= <- <-]; apply ext_refl|].
+  induction peers as [|p peers IH]; intros s kn s' er; cbn [rename_peers]; [intros [= <- <-]; apply ext_refl|].
   destruct (rename_remote validate p s _) as [s1 er1] eqn:E1. apply rename_remote_ext in E1.
   destruct (is_ok er1); [|intros [= <- <-]; assumption].
   intros H. eapply ext_trans; [eassumption|]. eapply IH; eassumption.
-Time Qed.
+Qed.
 
-Time Lemma rename_keys_ext fixed validate host s keys names s' r :
+Lemma rename_keys_ext fixed validate host s keys names s' r :
   is_Some (s_eng s !! host) -> rename_keys fixed validate host s keys names = (s', r) -> ext s s'.
 Proof.
   intros Hn. unfold rename_keys.
@@ -125,4 +125,4 @@ Proof.
     eapply ext_trans; [exact E1'|]. eapply ext_trans; [exact X2|].
     eapply rename_gateway_ext; [|eassumption].
     apply (ext_nodes _ _ X2), (ext_nodes _ _ E1'), Hn.
-Time Qed.
+Qed.
